@@ -25,6 +25,7 @@ C07 / C08), unchanged.
 -/
 import QbiceVerif.Lemmas.EngineCoreFwEx
 import QbiceVerif.Lemmas.EngineCoreFwDet
+import QbiceVerif.Lemmas.EngineCoreFwReads
 import QbiceVerif.Lemmas.EngineCoreEx
 namespace Qbice.CoreFw
 open Qbice.Core (Prog Err Write SetRes Op OpOut Ref Sat applyWrites writeResults applyWorld)
@@ -181,6 +182,85 @@ example : WF exA ∧ Shape exA ∧ Inv exA exAS ∧ (exAS.nodes 6).map (·.tfc) 
     cur exA exAS 6 = some 8 ∧
     (query exA (fuelFor exA) .user 6 exAS).toOption.map (fun r => (r.1, r.2.log)) = some (8, [4, 5, 6]) :=
   ⟨exA_wf, exA_noProj.over.shape, exAS_inv, by decide, by decide, by decide, by decide, by decide, by decide⟩
+
+/-- TOTALITY of a request: in a state satisfying the invariant in which every input key of the program
+    has a value (`InputsSet`), a request by the user for a key of the program ANSWERS — no error of any
+    kind (not `outOfFuel`, not `badKey`, not `inputNotSet`, not `badOp`) — and the answer is the
+    from-scratch value.  PARTIAL: `Shape p`. -/
+theorem core_query_total_partial {p : Program} (wf : WF p) (sh : Shape p) {s : St} (inv : Inv p s)
+    (hin : InputsSet p s) {k fuel : Nat} (hk : k < fuel) (hlen : k < p.length) :
+    ∃ v s', query p fuel .user k s = .ok (v, s') ∧ cur p s k = some v ∧ Inv p s' ∧ InputsSet p s' ∧
+      inputsOf s' = inputsOf s ∧ s'.epoch = s.epoch := by
+  obtain ⟨⟨v, s'⟩, h⟩ := query_total wf sh hk hlen inv hin
+  obtain ⟨i, f, c, _⟩ := (query_spec wf sh hk inv).ok h
+  exact ⟨v, s', h, c, i, hin.frame f, f.inputs, f.epoch⟩
+
+/-- TOTALITY and soundness of histories, as an EQUATION: for every well-formed history (`HistOK`: the
+    sessions write input keys of the program only, the rounds ask keys of the program only, and the
+    first operation is a session that sets every input key) the run from the initial state IS `.ok`
+    with outputs that are the from-scratch ones (`OutOK`: every value of every round, every write
+    result); the final state satisfies the invariant.  PARTIAL: `Shape p`. -/
+theorem core_history_total_partial {p : Program} (wf : WF p) (sh : Shape p) {ops : List Op}
+    (hok : HistOK p ops) :
+    ∃ outs s', runOps p ops {} = .ok (outs, s') ∧ OutOK p ops outs Ref.init ∧ Inv p s' := by
+  obtain ⟨⟨outs, s'⟩, h⟩ := runOps_total wf sh ops {} (Inv.init p) hok.1 (Or.inr hok.2)
+  obtain ⟨o, i⟩ := (runOps_spec wf sh ops {} (Inv.init p)).ok h
+  exact ⟨outs, s', h, o, i⟩
+
+/-- non-vacuity: `exDOps` is a well-formed history of the diamond with a firewall and a projection -/
+example : WF exD ∧ Shape exD ∧ HistOK exD exDOps := by
+  refine ⟨exD_wf, exD_pf.shape, ⟨⟨?_, ?_, ⟨?_, ?_, ?_, ?_, trivial⟩⟩, _, _, rfl, ?_⟩⟩
+  · intro k v hm
+    simp at hm
+    rcases hm with ⟨rfl, _⟩ | ⟨rfl, _⟩ <;> exact ⟨_, rfl, rfl⟩
+  · intro k hk; simp at hk; subst hk; decide
+  · intro k v hm
+    simp at hm
+    obtain ⟨rfl, _⟩ := hm; exact ⟨_, rfl, rfl⟩
+  · intro k hk; simp at hk; subst hk; decide
+  · intro k v hm
+    simp at hm
+    obtain ⟨rfl, _⟩ := hm; exact ⟨_, rfl, rfl⟩
+  · intro k hk; simp at hk; subst hk; decide
+  · intro k d hp hk
+    match k, hp with
+    | 0, _ => exact ⟨1, by simp⟩
+    | 1, _ => exact ⟨5, by simp⟩
+    | 2, hp | 3, hp | 4, hp | 5, hp => simp [exD] at hp; subst hp; simp at hk
+    | n + 6, hp => simp [exD] at hp
+
+/-- what happens when an input key was never set: the model answers `.error (.inputNotSet k)` — it
+    never invents a value.  (The implementation panics in that case: "Failed to find executor for
+    query", `Model/Engine.lean`; the generated histories of the correspondence check always set every
+    input in their first session, so this path is not compared with the implementation.) -/
+example :
+    errOf (runOps exF [.round [5]] {}) = some (.inputNotSet 0) ∧
+    errOf (runOps exF [.sess [.set 0 1], .round [5]] {}) = some (.inputNotSet 1) :=
+  ⟨by decide, by decide⟩
+
+/-- RUN-LEVEL inner statement: during a request by the user started in a state satisfying the invariant,
+    EVERY value handed to ANY executor that asks for a dependency — at any depth: inside the repair of a
+    recorded callee, inside a re-execution, inside the repair of the transitive firewall callees, inside
+    backward projection — is the from-scratch value of that dependency for the inputs committed in this
+    epoch.  `readsU p fuel k s` is the list of these `(dependency, value)` pairs, a pure function of the
+    (uninstrumented) model's recursion (`Lemmas/EngineCoreFwReads.lean`).  PARTIAL: `Shape p`. -/
+theorem core_all_reads_sound_partial {p : Program} (wf : WF p) (sh : Shape p) {s : St} (inv : Inv p s)
+    {k fuel : Nat} (hk : k < fuel) :
+    ∀ d v, (d, v) ∈ readsU p fuel k s → cur p s d = some v :=
+  fun d v h => readsU_ok wf sh hk inv (d, v) h
+
+/-- … and for every round of every history from the initial state (`AllReadsOK`: for each round, every
+    pair of `readsRound` is the from-scratch value for the inputs committed when the round began) -/
+theorem core_history_all_reads_sound_partial {p : Program} (wf : WF p) (sh : Shape p) (ops : List Op) :
+    AllReadsOK p ops {} :=
+  allReads_ok wf sh ops {} (Inv.init p)
+
+/-- non-vacuity: the reads of the user's request for key 5 of `exD` after the firewall changed: the
+    firewall reads input 0, the projection (re-run by backward projection) reads the firewall, key 5
+    reads 3 and 4, key 4 reads the firewall and input 1 — six reads, all from-scratch values -/
+example : Inv exD exDU ∧ readsU exD (fuelFor exD) 5 { exDU with log := [] } =
+    [(0, 0), (2, 0), (3, 0), (2, 0), (1, 5), (4, 5)] :=
+  ⟨exDU_inv, by decide +kernel⟩
 
 /-- "an input session (epoch bump, writes, commit with dirty propagation) re-establishes the engine
     invariant; each write reports Fresh / Updated / Unchanged exactly by presence / equality of the
